@@ -172,6 +172,110 @@ class ValueSpelling(ManifestHarness):
         return t.bs, {}, expect
 
 
+class Attributes(ManifestHarness):
+    """two rules, two build statements, every step attribute the property names (description, depfile, deps, rspfile +
+    rspfile_content, pool, hide_success / hide_progress) bound at rule level, at build level or not at all; whole-line
+    comments (symbolic bytes, may contain `$`, `:`, `|`, `#`) and blank lines at a symbolic position between statements"""
+
+    def generate(self, I):
+        nb = sym_name_byte(I, 'nm')
+        I.solver.add(nb.v != ord('.'), nb.v != ord('/'), nb.v != ord('\\'))
+        c0 = I.fresh_int('cm0', 8)
+        c1 = I.fresh_int('cm1', 8)
+        for c in (c0, c1):
+            for x in (0, 10, 13):
+                I.solver.add(c.v != x)
+        where = I.choose('comment_at', 6)          # 0 none | 1 top | 2 after rule r | 3 between the builds | 4 at the end without newline | 5 blank lines
+        where_desc = I.choose('desc', 3)           # absent | rule | build (build shadows rule)
+        where_dep = I.choose('depfile', 3)         # absent | rule | build
+        deps = I.choose('deps', 3)                 # absent | gcc | msvc
+        rsp = I.choose('rsp', 3)                   # absent | rule | build
+        hide = I.choose('hide', 3)                 # none | hide_success at rule | hide_progress at build
+        second = I.choose('second', 2)             # second step: plain rule s | phony
+        t = Text()
+
+        def comment(k):
+            if where == k:
+                t.add('#').add([c0, c1]).add(' $x : | #\n')
+            elif where == 5 and k in (1, 2, 3):
+                t.add('\n\n')
+        comment(1)
+        t.add('pool pl\n  depth = 2\n')
+        t.add('rule r\n  command = c $in\n')
+        if where_desc >= 1:
+            t.add('  description = D $out\n')
+        if where_dep == 1:
+            t.add('  depfile = $out.d\n')
+        if deps:
+            t.add('  deps = %s\n' % ('gcc' if deps == 1 else 'msvc'))
+        if rsp == 1:
+            t.add('  rspfile = $out.rsp\n  rspfile_content = R $in\n')
+        if hide == 1:
+            t.add('  hide_success = 1\n')
+        t.add('  pool = pl\n')
+        comment(2)
+        t.add('rule s\n  command = s $out\n  description = S\n')
+        o1 = B('o') + [nb]
+        i1 = B('i') + [nb]
+        t.add('build ').add(o1).add(': r ').add(i1).add('\n')
+        if where_desc == 2:
+            t.add('  description = B').add([nb]).add('\n')
+        if where_dep == 2:
+            t.add('  depfile = dd').add([nb]).add('\n')
+        if rsp == 2:
+            t.add('  rspfile = rr\n  rspfile_content = C').add([nb]).add('\n')
+        if hide == 2:
+            t.add('  hide_progress = 1\n')
+        comment(3)
+        o2 = B('p') + [nb]
+        t.add('build ').add(o2).add(': ' + ('s' if second == 0 else 'phony') + ' ').add(o1).add('\n')
+        if where == 4:
+            t.add('# ').add([c0, c1])
+        want1 = {'explicit_outs': [o1], 'explicit_ins': [i1], 'cmdline': B('c ') + i1, 'pool': B('pl'),
+                 'desc': {0: None, 1: B('D ') + o1, 2: B('B') + [nb]}[where_desc],
+                 'depfile': {0: None, 1: o1 + B('.d'), 2: B('dd') + [nb]}[where_dep]}
+        rsp1 = {0: None, 1: (o1 + B('.rsp'), B('R ') + i1), 2: (B('rr'), B('C') + [nb])}[rsp]
+        want2 = {'explicit_outs': [o2], 'explicit_ins': [o1], 'pool': None, 'depfile': None,
+                 'cmdline': (B('s ') + o2) if second == 0 else None, 'desc': B('S') if second == 0 else None}
+
+        def flag(I, got, want, key, what):
+            if not got.conc() or bool(got.v) != want:
+                I.fail(key, '%s is %r, the manifest declares %r' % (what, got, want), extra=self.extra())
+
+        def expect(I, r):
+            ex = self.extra()
+            if r.variant != 'Ok':
+                I.fail('rejected', 'a well-formed manifest is rejected: %r' % LL_msg(r), extra=ex)
+            ld = Loaded(self.L, r.fields[0])
+            if len(ld.builds) != 2:
+                I.fail('step-count', 'the manifest declares 2 steps, %d loaded' % len(ld.builds), extra=ex)
+            b1, b2 = ld.build(0), ld.build(1)
+            compare_build(I, b1, want1, ex)
+            compare_build(I, b2, want2, ex)
+            flag(I, b1['showincludes'], deps == 2, 'attr:deps', 'deps = msvc (parse /showIncludes)')
+            flag(I, b1['hide_success'], hide == 1, 'attr:hide_success', 'hide_success')
+            flag(I, b1['hide_progress'], hide == 2, 'attr:hide_progress', 'hide_progress')
+            for b in (b2,):
+                flag(I, b['showincludes'], False, 'attr:deps', 'deps of the second step')
+                flag(I, b['hide_success'], False, 'attr:hide_success', 'hide_success of the second step')
+                flag(I, b['hide_progress'], False, 'attr:hide_progress', 'hide_progress of the second step')
+                if b['rspfile'] is not None:
+                    I.fail('attr-presence:rspfile', 'the second step has a response file, none declared', extra=ex)
+            g = b1['rspfile']
+            if (g is None) != (rsp1 is None):
+                I.fail('attr-presence:rspfile', 'response file %s, declared %s' % ('absent' if g is None else 'present', 'absent' if rsp1 is None else 'present'), extra=ex)
+            if g is not None:
+                bytes_eq(I, g[0], rsp1[0], 'attr:rspfile', 'the response file path differs from the declared one', ex)
+                bytes_eq(I, g[1], rsp1[1], 'attr:rspfile_content', 'the response file content differs from the declared one', ex)
+            if ld.defaults():
+                I.fail('default', 'no default declared, %d loaded' % len(ld.defaults()), extra=ex)
+            pools = ld.pools()
+            if len(pools) != 1 or show(pools[0][0]) != b'pl' or not (pools[0][1].conc() and pools[0][1].v == 2):
+                I.fail('pool', 'pool pl depth 2 declared, loaded %r' % [(show(a), b) for a, b in pools], extra=ex)
+            return 'ok'
+        return t.bs, {}, expect
+
+
 def concrete_text(extra, model):
     out = bytearray()
     for v, nm in zip(extra['text'], extra['symnames']):
@@ -214,6 +318,7 @@ def run(ctx, out):
     I = load_interp(ctx)
     rep = Replayer(ctx.tree)
     run_family(ctx, out, I, rep, BuildLine(I, ctx.tree), 'build statement: roles x order x escapes x separator spelling')
+    run_family(ctx, out, I, rep, Attributes(I, ctx.tree), 'attributes: description/depfile/deps/rspfile/pool/hide_* at rule or build level; comments and blank lines between statements')
     VS = ValueSpelling(I, ctx.tree)
     VS.nparts = 3 if ctx.quick() else 4
     run_family(ctx, out, I, rep, VS, 'value spelling: literals, $v/${v}, escapes, continuations (%d parts)' % VS.nparts,
@@ -227,7 +332,8 @@ def run(ctx, out):
         'evaluations': cov.get('paths', 0), 'distinct_nontrivial': cov.get('paths', 0),
         'rule': 'one evaluation = one feasible path class (abstract statement x spelling) closed by the solver',
         'samples': [{'family': k, 'paths': v['paths']} for k, v in cov['harnesses'].items()],
-        'bounds': {'build statement': '<=2 explicit + 1 implicit outputs, <=2+1+1+1 inputs', 'value': '3 parts'},
+        'bounds': {'build statement': '<=2 explicit + 1 implicit outputs, <=2+1+1+1 inputs', 'value': '3 parts',
+                   'attributes': '2 rules, 2 build statements (second: rule or phony), each attribute absent / at rule / at build, one comment or blank-line position of 5'},
         'outside_the_claim': ['statements longer than the families', 'free-form text (totality on arbitrary bytes is C12)',
                               'include/subninja (C11 families)', 'violations are replayed natively for inspection; the oracle is the abstract manifest'],
     })
